@@ -18,7 +18,9 @@ def snap_node(n: Any) -> tuple:
         elif isinstance(v, tuple) and v and all(isinstance(x, ASTNode) for x in v):
             fields.append((f.name, "nodes", id(v), tuple(id(x) for x in v)))
         elif f.name == "origin":
-            fields.append((f.name, "origin", id(v)))
+            # identity and deep value: an origin (e.g. the member list of a multi-origin) must not be
+            # changed in place either
+            fields.append((f.name, "origin", id(v), repr(v), getattr(v, "fqn", None)))
         else:
             fields.append((f.name, "value", T.typed_value(v), id(v) if isinstance(v, (tuple, frozenset)) else None))
     return (id(n), type(n), hash(n), n.id, n.content_id, tuple(fields))
